@@ -14,13 +14,16 @@ pub trait CvRDT: Sized {
     type Validation;
     spec fn cv_inv(&self) -> bool;
     spec fn cv_pre(&self, other: &Self) -> bool;
+    /// the exact effect of `merge` (each implementation's own postcondition), so that generic code (Map) can state
+    /// what happened to a nested value
+    spec fn cv_post(old_: &Self, other: &Self, new_: &Self) -> bool;
 
     fn validate_merge(&self, other: &Self) -> Result<(), Self::Validation>
         requires self.cv_inv(), other.cv_inv();
 
     fn merge(&mut self, other: Self)
         requires old(self).cv_inv(), other.cv_inv(), old(self).cv_pre(&other),
-        ensures final(self).cv_inv();
+        ensures final(self).cv_inv(), Self::cv_post(old(self), &other, final(self));
 }
 
 pub trait CmRDT {
@@ -28,21 +31,23 @@ pub trait CmRDT {
     type Validation;
     spec fn cm_inv(&self) -> bool;
     spec fn cm_pre(&self, op: &Self::Op) -> bool;
+    spec fn cm_post(old_: &Self, op: &Self::Op, new_: &Self) -> bool;
 
     fn validate_op(&self, op: &Self::Op) -> Result<(), Self::Validation>
         requires self.cm_inv();
 
     fn apply(&mut self, op: Self::Op)
         requires old(self).cm_inv(), old(self).cm_pre(&op),
-        ensures final(self).cm_inv();
+        ensures final(self).cm_inv(), Self::cm_post(old(self), &op, final(self));
 }
 
 pub trait ResetRemove<A: Ord> {
     spec fn rr_inv(&self) -> bool;
+    spec fn rr_post(old_: &Self, clock: &VClock<A>, new_: &Self) -> bool;
 
     fn reset_remove(&mut self, clock: &VClock<A>)
         requires old(self).rr_inv(),
-        ensures final(self).rr_inv();
+        ensures final(self).rr_inv(), Self::rr_post(old(self), clock, final(self));
 }
 
 } // verus!
